@@ -406,16 +406,32 @@ func vC20TxID(seq int, seed uint64) [12]byte {
 // vC20From builds the (unique) source address of the seq-th injected packet.
 func vC20From(seq int, form int) *net.UDPAddr {
 	port := 1 + seq%65535
-	switch form % 3 {
-	case 0:
+	switch form % vC20AddrForms {
+	case 0: // 4-byte IPv4
 		return &net.UDPAddr{IP: net.IP{192, 0, 2, byte(1 + seq%200)}, Port: port}
-	case 1:
-		return &net.UDPAddr{IP: net.IPv4(198, 51, 100, byte(1+seq%200)), Port: port} // 16-byte form of an IPv4 address
-	default:
+	case 1: // IPv4-mapped IPv6 (::ffff:a.b.c.d), as a dual-stack socket reports IPv4 peers
+		return &net.UDPAddr{IP: net.IPv4(198, 51, 100, byte(1+seq%200)), Port: port}
+	case 2: // global IPv6
 		ip := net.ParseIP("2001:db8::1")
 		ip[15] = byte(1 + seq%200)
 		return &net.UDPAddr{IP: ip, Port: port}
+	case 3: // link-local IPv6 with a zone
+		ip := net.ParseIP("fe80::1")
+		ip[15] = byte(1 + seq%200)
+		return &net.UDPAddr{IP: ip, Port: port, Zone: "eth0"}
+	default: // link-local IPv6, numeric zone
+		ip := net.ParseIP("fe80::aa:1")
+		ip[15] = byte(1 + seq%200)
+		return &net.UDPAddr{IP: ip, Port: port, Zone: "2"}
 	}
+}
+
+const vC20AddrForms = 5
+
+// vC20SameAddr: "with its source address" = the very address the inner conn
+// reported: same IP bytes in the same length form, same port, same zone.
+func vC20SameAddr(got, want *net.UDPAddr) bool {
+	return got != nil && bytes.Equal(got.IP, want.IP) && got.Port == want.Port && got.Zone == want.Zone
 }
 
 // what the implementation is expected to report as the peer of a punch event
@@ -873,7 +889,7 @@ func vC20JudgeReturned(exps []vC20Exp, rets []vC20Ret) (map[int]bool, error) {
 			return nil, fmt.Errorf("returned packet %d has source address %v (%T), not the injected *net.UDPAddr; bytes=%s", k, r.addr, r.addr, vC20Hex(r.b))
 		}
 		i, ok := byPort[ua.Port]
-		if !ok || !ua.IP.Equal(exps[i].pkt.from.IP) || ua.Zone != exps[i].pkt.from.Zone {
+		if !ok || !vC20SameAddr(ua, exps[i].pkt.from) {
 			who := "no injected packet"
 			for _, e := range exps {
 				if bytes.Equal(e.pkt.b, r.b) {
@@ -881,7 +897,7 @@ func vC20JudgeReturned(exps []vC20Exp, rets []vC20Ret) (map[int]bool, error) {
 					break
 				}
 			}
-			return nil, fmt.Errorf("returned packet %d carries source address %v which is not the address it was received from (%s)", k, r.addr, who)
+			return nil, fmt.Errorf("returned packet %d carries source address %#v which is not the address the inner conn reported for it (%s)", k, *ua, who)
 		}
 		e := exps[i]
 		if returned[i] {
